@@ -39,8 +39,12 @@ def _to_zip_product(sweep: cirq.Sweep) -> cirq.Product:
     """Converts sweep to a product of zips of single sweeps, if possible."""
     if not isinstance(sweep, cirq.Product):
         sweep = cirq.Product(sweep)
-    if not all(isinstance(f, cirq.Zip) for f in sweep.factors):
-        factors = [f if isinstance(f, cirq.Zip) else cirq.Zip(f) for f in sweep.factors]
+    # A ZipLongest is a Zip by class but not by meaning: the format cannot express it.
+    def is_plain_zip(f: cirq.Sweep) -> bool:
+        return isinstance(f, cirq.Zip) and not isinstance(f, cirq.ZipLongest)
+
+    if not all(is_plain_zip(f) for f in sweep.factors):
+        factors = [f if is_plain_zip(f) else cirq.Zip(f) for f in sweep.factors]
         sweep = cirq.Product(*factors)
     for factor in sweep.factors:
         for term in cast(cirq.Zip, factor).sweeps:
